@@ -274,14 +274,38 @@ func vxLast(f *DefaultFanController) int {
 	return *f.lastSetPwm
 }
 
-// vxStateKey: canonical state of controller + fan + device (counters that only grow are excluded).
+// vxSkipField lists the controller/fan fields that are NOT part of the canonical state, each with the
+// argument why merged states have the same futures:
+//
+//	stats                      monotone counters, never read by the control path (checked as deltas by oracles)
+//	persistence/curve/updateRate  injected collaborators / constants (the curve stub's value is set by the environment every step)
+//	pwmMap/pwmValuesWithDistinctTarget  fixed after start-up; the oracle reads the same map object, so a change would be seen
+//	fan.Config                 immutable configuration
+//	fan.FanCurveData           PWM->RPM samples appended by measureRpm; read only by AttachFanRpmCurveData/persistence, not by the cycle
+//
+// Every other field (including fields added later) is part of the key.
+//   fan.Pwm / fan.Rpm (hwmon), fan.Pwm (file)  write-only caches of the last value read (only the JSON API reads them)
+func vxSkipField(path string) bool {
+	switch path {
+	case "fan.Pwm":
+		return true
+	case "stats", "persistence", "curve", "updateRate", "pwmMap", "pwmValuesWithDistinctTarget", "fan.Config", "fan.FanCurveData":
+		return true
+	}
+	return false
+}
+
+// vxStateKey: canonical state of controller + fan (generic deep key) + device files.
 func (fx *vxFix) vxStateKey() string {
 	mode := -1
 	if fx.dev.Enable != "" && fx.fs.F(fx.dev.Enable) != nil {
 		mode = fx.fs.Val(fx.dev.Enable)
 	}
-	return fmt.Sprintf("last=%d off=%d fmin=%d fmax=%d pwm=%d mode=%d loop=%s", vxLast(fx.ctl), fx.ctl.minPwmOffset,
-		fx.fan.GetMinPwm(), fx.fan.GetMaxPwm(), fx.fs.Val(fx.dev.Pwm), mode, vxLoopState(fx.ctl.controlLoop))
+	skip := vxSkipField
+	if fx.cfg.Kind == "hwmon" {
+		skip = func(p string) bool { return p == "fan.Rpm" || vxSkipField(p) }
+	}
+	return fmt.Sprintf("dev[pwm=%d mode=%d] %s", fx.fs.Val(fx.dev.Pwm), mode, mc.DeepKey(fx.ctl, skip))
 }
 
 func vxMapValues(m map[int]int) map[int]bool {
